@@ -79,6 +79,8 @@ CONF = {
         {"module": "MC_Rebalance", "cfg": {"quick": "MC_dev_quick.cfg", "thorough": "MC_dev_thorough.cfg"}, "timeout": 1500},
         # NodeFit (any subset removable), stale metrics, NumberOfNodes = 1, second pod set
         {"module": "MC_Rebalance", "cfg": {"quick": None, "thorough": "MC_fit_thorough.cfg"}, "timeout": 1500},
+        # 5 rounds, anomaly 2 / 3, ConsecutiveNormalities 2
+        {"module": "MC_Rebalance", "cfg": {"quick": None, "thorough": "MC_rounds5_thorough.cfg"}, "timeout": 1500},
     ],
     "go": [{"pkg": "pkg/descheduler/framework/plugins/loadaware", "test": "TestVerifC18",
             "timeout": {"quick": 900, "thorough": 1800}}],
